@@ -606,8 +606,14 @@ func (s *Server) startRaftLeadershipLoop(node *raftNode) {
 						default:
 							// Step down as leader.
 							s.logger.Warn("Stepping down as metadata leader")
-							if future := node.LeadershipTransfer(); future.Error() != nil {
-								panic(errors.Wrap(future.Error(), "error on metadata leadership step down"))
+							if err := node.LeadershipTransfer().Error(); err != nil {
+								if err == raft.ErrNotLeader || err == raft.ErrLeadershipTransferInProgress {
+									// Leadership is already gone or on its way
+									// to another server, so there is nothing
+									// to step down from.
+									continue
+								}
+								panic(errors.Wrap(err, "error on metadata leadership step down"))
 							}
 							continue
 						}
